@@ -16,8 +16,8 @@ are replayed on the real cluster through cluster.RestartSurvivors (harness/clust
 of the deep arms (flushes + compactions: files exist to be clobbered), replacement ids sorting after (even
 behaviours) or before (odd behaviours) the survivors'. Oracle as everywhere in C01: the state every handler
 invocation is given, every published checkpoint read back, the final state. Publications are diluted in generation
-(PubDilution) so that snapshot writes stay in flight across kills: a surviving job publishes the checkpoint of the
-previous assembly AFTER it has re-assembled from an older one, and the next recovery loads it.
+(PubDilution) so that snapshot writes stay in flight across kills: a surviving job must give up the complete but
+unwritten checkpoints of the previous assembly when it re-assembles from an older one.
 """
 import json
 import vlib
@@ -36,7 +36,7 @@ def run_surv(c, m):
         c01_deep.exhaustive(c, m, base, "survivors", ["RestartSame"])
         c01_deep.exhaustive(c, m, dict(base, Overlap=True, MaxKills=1), "survivors + overlapping publications, 1 kill", ["RestartSame", "TickOverlap"])
     need = ("flushes", "compactions", "redeployedInPlace", "redeployedAtAnotherPosition", "replacements", "jobSurvived", "lateDelivered",
-            "restoredWithTables", "publishedAfterRestart")
+            "restoredWithTables", "writesGivenUp")
     n = (60, 30) if quick else (400, 300)
     s = c.seed * 100 + 70
     extra = dict(c01_deep.DKV, Survive=True, Chunk=15, StopAfterViolations=5, BudgetS=m.BUDGET[c.tier])
